@@ -426,6 +426,7 @@ class History(object):
         else:
             o = observe(self.h.sent[-1])
         self.last_obs = o
+        self.last_terms = (wire_term(w), attrs_term(a), obs_term(o))
         self.items.append("HReq (%s) %s (%s) %s" % (wire_term(w), attrs_term(a), obs_term(o), boolean(self.fctx.raised)))
         self.desc.append({"wire": list(w), "front_end": name, "decoded_by": via, "attrs": a, "response": list(o),
                           "faulted": self.fctx.raised, "set_done_before_fault": self.fctx.raised and self.fctx.set_done})
